@@ -15,7 +15,7 @@
 (***************************************************************************)
 EXTENDS Naturals, Sequences, FiniteSets, SequencesExt, TLC
 
-Rank == [Q |-> 1, R |-> 2, S |-> 3, T |-> 4, G |-> 5, P |-> 6, V |-> 7, W |-> 8, W2 |-> 9, fa |-> 10, fb |-> 11, gomod |-> 12,
+Rank == [H |-> 0, Q |-> 1, R |-> 2, S |-> 3, T |-> 4, G |-> 5, P |-> 6, V |-> 7, W |-> 8, W2 |-> 9, fa |-> 10, fb |-> 11, gomod |-> 12,
          k |-> 13, mod |-> 14, pkg |-> 15, src |-> 16, u |-> 17, x |-> 18, y |-> 19, z |-> 20, testdir |-> 21, testmain |-> 22]
 RECURSIVE PathLess(_,_)
 PathLess(p, q) == IF p = <<>> THEN q # <<>>
